@@ -43,3 +43,45 @@ Proof. intros w gen s name fi body bfi fi' H. cbn [gen_one]. rewrite H. reflexiv
 Theorem C09_code_splice_not_code : forall w gen s name fi v,
   value_for (cg_r s) name = Ok (VInt v) -> gen_one w gen s (ACodeLookup name fi) = Err ENode.
 Proof. intros w gen s name fi v H. cbn [gen_one]. rewrite H. reflexivity. Qed.
+
+(** Deferred arguments against the inlined block.  With evaluated ([PInt]) and deferred ([PDef])
+    arguments in any mix, the application generates exactly the nodes of the hand-written block
+    [{ p_i := v_i / p_j = e_j ...  body }], except that the deferred parameters' SymbolNodes look
+    their expression up from the caller's scope ([in_parent = true]) — never captured — where the
+    block's look it up from the block's own scope. *)
+From A816 Require Import Model.Program Spec.EnvSem Proofs.DeferredArgs.
+Theorem C09_inline_deferred : forall w f s name args fi fi' fi'' md pbs,
+  dict_get (cg_macros s) name = Some md ->
+  eval_macro_args w (cg_r s) (md_params md) args = Ok (bound_of pbs) ->
+  lits_closed w pbs ->
+  match gen_one w (code_gen_fuel w (S f)) s (ACompound (stmts_of pbs fi'' ++ md_body md) fi') with
+  | Ok x => exists body_ns,
+      snd x = NScope :: def_nodes false pbs ++ body_ns ++ [NPop] /\
+      gen_one w (code_gen_fuel w (S f)) s (AMacroApply name args fi) =
+      Ok (fst x, NScope :: def_nodes true pbs ++ body_ns ++ [NPop])
+  | Err k => gen_one w (code_gen_fuel w (S f)) s (AMacroApply name args fi) = Err k
+  | OutOfFuel => gen_one w (code_gen_fuel w (S f)) s (AMacroApply name args fi) = OutOfFuel
+  end.
+Proof. exact macro_application_inlined_deferred. Qed.
+(** The two lookups agree whenever no identifier of the expression is bound in the block scope
+    itself (then the walk to the parent finds the same binding)... *)
+Theorem C09_deferred_flag : forall w r p e a,
+  wf_scopes (r_scopes r) -> own_free r e ->
+  pc_after w r (NSymbol p e true) a = pc_after w r (NSymbol p e false) a.
+Proof. exact deferred_flag_irrelevant. Qed.
+(** ... so the whole assemblies of the two node lists are EQUAL when, in the state in which the
+    symbol pass enters the scope, no deferred expression mentions a name the scope itself binds
+    (evaluated parameters — later ones included —, [:=] constants and labels of the body's own
+    level) or an earlier deferred parameter.  Where that fails the application is the one that is
+    right (the argument means what it means at the call site) and the naive inlining is captured:
+    DeferredExamples in Proofs/DeferredArgs.v. *)
+Theorem C09_deferred_assembly : forall w r pre pbs rest,
+  wf_scopes (r_scopes r) ->
+  (forall r1 a1 l r2 a2 r3,
+     label_pass w (set_cur_last r (r_cur r) 0) (pre ++ NScope :: def_nodes true pbs ++ rest) (r_reloc r) [] = Ok (r1, a1, l) ->
+     symbol_pass w (resolver_reset r1) pre (r_reloc r1) = Ok (r2, a2) ->
+     use_next_scope r2 = Ok r3 ->
+     def_cond (own_of r3) [] pbs) ->
+  assemble_nodes w r (pre ++ NScope :: def_nodes true pbs ++ rest) =
+  assemble_nodes w r (pre ++ NScope :: def_nodes false pbs ++ rest).
+Proof. exact assemble_nodes_deferred_inlined. Qed.
